@@ -311,7 +311,10 @@ pub fn fuzz_one(target: &str, data: &[u8]) {
     static HOOK: std::sync::Once = std::sync::Once::new();
     // replace libFuzzer's abort-on-panic hook: expected panics (refusals, out-of-bounds probes)
     // are caught and judged by the oracles
-    HOOK.call_once(crate::util::install_panic_hook);
+    HOOK.call_once(|| {
+        crate::util::install_panic_hook();
+        crate::spec::LIGHT_GENERATORS.store(true, std::sync::atomic::Ordering::Relaxed);
+    });
     if let Err(v) = run_target(target, data, false) {
         eprintln!("VIOLATION property={} engine={} spec={}\n  {}", v.property, v.engine, v.spec, v.message);
         std::process::abort();
